@@ -1,5 +1,5 @@
 (** C18 — Build events and target output follow a well-formed protocol.  Statements only. *)
-From Dawn Require Import Base.Bytes Build.Model Build.Proofs Build.Proofs_Fresh Build.Proofs_Noop Build.LineWriter Build.Stream Build.Proofs_Stream.
+From Dawn Require Import Base.Bytes Build.Model Build.Proofs Build.Proofs_Fresh Build.Proofs_Noop Build.LineWriter Build.Stream Build.Proofs_Stream Build.Pump Build.Proofs_Pump.
 
 (** In every build (any mode, any failure pattern, also one cut short by a crash) the events of one label are:
     nothing (never visited, or a dependency failed with an ordinary error), one up-to-date event, evaluating followed by
@@ -63,6 +63,46 @@ Theorem output_inside_window :
 Proof. exact Proofs_Stream.output_inside_window. Qed.
 Print Assumptions output_inside_window.
 
+(** The REPL's listener, run(label, callback=f) (events.go, runEvents; model Build/Pump.v: an unbuffered channel, one
+    receiving goroutine that calls f and ignores its result).  Whatever f raises -- [raises] is any predicate on events --
+    f is called with the complete stream of the build, in order, and no send is left blocked (so Project.Run returns);
+    in particular run-done reaches f exactly once, last, with the build's result, and the events of every label are
+    those of the build (so per_label_shape and output_inside_window speak about what f sees). *)
+Theorem callback_receives_the_stream :
+  forall (raises : sev -> bool) out c w l,
+    feed raises true pump0 (run_stream out c w l) = (mkPump true (run_stream out c w l), []).
+Proof. exact Proofs_Pump.callback_receives_the_stream_proof. Qed.
+Print Assumptions callback_receives_the_stream.
+
+Theorem callback_run_done_once_last :
+  forall (raises : sev -> bool) out c w l,
+    snd (feed raises true pump0 (run_stream out c w l)) = [] /\
+    exists pre, p_seen (fst (feed raises true pump0 (run_stream out c w l))) = pre ++ [SRunDone (o_res (build c w l))] /\
+                forallb (fun s => negb (is_run_done s)) pre = true.
+Proof. exact Proofs_Pump.callback_run_done_once_last_proof. Qed.
+Print Assumptions callback_run_done_once_last.
+
+Theorem callback_label_events :
+  forall (raises : sev -> bool) out c w l x,
+    sevents_of x (p_seen (fst (feed raises true pump0 (run_stream out c w l)))) = sevents_of x (run_stream out c w l).
+Proof. exact Proofs_Pump.callback_label_events_proof. Qed.
+Print Assumptions callback_label_events.
+
+(** A receiver that stops at the callback's first error is not this: everything sent after the first raising event is
+    never received (its senders block for ever); for a build whose first event makes the callback raise that is the whole
+    rest of the stream, run-done included. *)
+Theorem stopping_pump_blocks_the_build :
+  forall (raises : sev -> bool) out c w l e rest,
+    run_stream out c w l = e :: rest -> raises e = true ->
+    feed raises false pump0 (run_stream out c w l) = (mkPump false [e], rest).
+Proof. exact Proofs_Pump.stopping_pump_blocks_the_build_proof. Qed.
+Print Assumptions stopping_pump_blocks_the_build.
+
+Theorem stop_at_first_error_refuted :
+  exists (evs : list bool), snd (feed (fun b => b) false pump0 evs) <> [] /\ snd (feed (fun b => b) true pump0 evs) = [].
+Proof. exact Proofs_Pump.stop_at_first_error_refuted_proof. Qed.
+Print Assumptions stop_at_first_error_refuted.
+
 (** non-vacuity: target 1 writes "ab", "\nc" and fails; target 2 is cut off below it *)
 Example stream_example :
   let pr := [(1, Fn [] [10] [100] 1 7 false); (2, Fn [1] [] [101] 2 8 false); (10, Src 50)] in
@@ -76,3 +116,8 @@ Proof. vm_compute. reflexivity. Qed.
 Example lines_example :
   lw_run [] [[97; 98]; [10; 99]; [10; 10; 100]] = ([], [[97; 98]; [99]; []; [100]]).
 Proof. vm_compute. reflexivity. Qed.
+
+Example pump_example :
+  feed (fun b : bool => b) true pump0 [true; false; true] = (mkPump true [true; false; true], []) /\
+  feed (fun b : bool => b) false pump0 [false; true; false; true] = (mkPump false [false; true], [false; true]).
+Proof. vm_compute. split; reflexivity. Qed.
